@@ -80,7 +80,7 @@ func (r *Repository) GetEntriesInTree(treeID Hash) ([]TreeEntry, error) {
 	// of being on Ubuntu 22.04. 22.04 is still widely used in WSL2 environments.
 	// So, we're removing --format and parsing the output differently to handle
 	// the extra information for each entry we don't need.
-	stdOut, err := r.executor("ls-tree", treeID.String()).executeString()
+	stdOut, err := r.executor("ls-tree", "-z", treeID.String()).executeRaw()
 	if err != nil {
 		return nil, fmt.Errorf("unable to enumerate items in tree '%s': %w", treeID.String(), err)
 	}
@@ -89,18 +89,24 @@ func (r *Repository) GetEntriesInTree(treeID Hash) ([]TreeEntry, error) {
 		return nil, nil // alternatively, just check if treeID is empty tree?
 	}
 
-	lines := strings.Split(stdOut, "\n")
+	lines := splitNUL(stdOut)
 	entries := make([]TreeEntry, 0, len(lines))
 	for _, line := range lines {
 		// Without --format, the output is in the following format:
 		// <mode> SP <type> SP <object> TAB <file>
 		// From: https://git-scm.com/docs/git-ls-tree/2.34.1#_output_format
 
-		fields := strings.Split(line, " ")
+		// With -z, <file> is verbatim and the record ends in NUL. Only the
+		// first TAB separates metadata from the name.
+		meta, name, found := strings.Cut(line, "\t")
+		fields := strings.Split(meta, " ")
+		if !found || len(fields) != 3 {
+			return nil, fmt.Errorf("unexpected ls-tree record '%s'", line)
+		}
 		// fields[0] is <mode> -- discard
 		// fields[1] is <type> -- blob or tree
-		// fields[2] is <object> TAB <file>
-		objectAndName := strings.Split(fields[2], "\t")
+		// fields[2] is <object>
+		objectAndName := []string{fields[2], name}
 
 		hash, err := NewHash(objectAndName[0])
 		if err != nil {
@@ -126,7 +132,7 @@ func (r *Repository) GetAllFilesInTree(treeID Hash) (map[string]Hash, error) {
 	// of being on Ubuntu 22.04. 22.04 is still widely used in WSL2 environments.
 	// So, we're removing --format and parsing the output differently to handle
 	// the extra information for each entry we don't need.
-	stdOut, err := r.executor("ls-tree", "-r", treeID.String()).executeString()
+	stdOut, err := r.executor("ls-tree", "-z", "-r", treeID.String()).executeRaw()
 	if err != nil {
 		return nil, fmt.Errorf("unable to enumerate all files in tree: %w", err)
 	}
@@ -135,7 +141,7 @@ func (r *Repository) GetAllFilesInTree(treeID Hash) (map[string]Hash, error) {
 		return nil, nil // alternatively, just check if treeID is empty tree?
 	}
 
-	entries := strings.Split(stdOut, "\n")
+	entries := splitNUL(stdOut)
 	if len(entries) == 0 {
 		return nil, nil
 	}
@@ -146,11 +152,17 @@ func (r *Repository) GetAllFilesInTree(treeID Hash) (map[string]Hash, error) {
 		// <mode> SP <type> SP <object> TAB <file>
 		// From: https://git-scm.com/docs/git-ls-tree/2.34.1#_output_format
 
-		entrySplit := strings.Split(entry, " ")
-		// entrySplit[0] is <mode> -- discard
-		// entrySplit[1] is <type> -- discard
-		// entrySplit[2] is <object> TAB <file> -- keep
-		entrySplit = strings.Split(entrySplit[2], "\t")
+		// With -z, <file> is verbatim and the record ends in NUL. Only the
+		// first TAB separates metadata from the name.
+		meta, name, found := strings.Cut(entry, "\t")
+		metaSplit := strings.Split(meta, " ")
+		if !found || len(metaSplit) != 3 {
+			return nil, fmt.Errorf("unexpected ls-tree record '%s'", entry)
+		}
+		// metaSplit[0] is <mode> -- discard
+		// metaSplit[1] is <type> -- discard
+		// metaSplit[2] is <object> -- keep
+		entrySplit := []string{metaSplit[2], name}
 
 		// <object> is really the object ID
 		hash, err := NewHash(entrySplit[0])
@@ -465,10 +477,10 @@ func (t *TreeBuilder) writeTree(entries []treeNode) (Hash, error) {
 			// TODO: support entryBlob's permissions here
 			input += "100644 blob " + entry.gitID.String() + "\t" + entry.name
 		}
-		input += "\n"
+		input += "\x00"
 	}
 
-	stdOut, err := t.repo.executor("mktree").withStdIn(bytes.NewBufferString(input)).executeString()
+	stdOut, err := t.repo.executor("mktree", "-z").withStdIn(bytes.NewBufferString(input)).executeString()
 	if err != nil {
 		return ZeroHash, fmt.Errorf("unable to write Git tree: %w", err)
 	}
